@@ -176,12 +176,49 @@ func selectCaseLeavesLoop(sel *ssa.Select, si int, l *Loop) bool {
 }
 
 func resultFalseLeavesLoop(call *ssa.Call, l *Loop) bool {
-	for _, r := range *call.Referrers() {
-		iff, ok := r.(*ssa.If)
+	// the tested value is the call's result: directly, negated, or carried to the loop's own test through a loop
+	// variable (`for changed := true; changed; { …; changed = conn.WaitForStateChange(ctx, s) }`)
+	isResult := func(v ssa.Value) bool {
+		if v == ssa.Value(call) {
+			return true
+		}
+		ph, ok := v.(*ssa.Phi)
+		if !ok || ph.Block() != l.Header {
+			return false
+		}
+		n := 0
+		for i, e := range ph.Edges {
+			if !l.Blocks[l.Header.Preds[i]] {
+				continue // the value the loop is entered with
+			}
+			if e != ssa.Value(call) {
+				return false
+			}
+			n++
+		}
+		return n > 0
+	}
+	for b := range l.Blocks {
+		iff, ok := b.Instrs[len(b.Instrs)-1].(*ssa.If)
 		if !ok {
 			continue
 		}
-		return !reachesLoop(iff.Block().Succs[1], l)
+		cond, neg := iff.Cond, false
+		for {
+			u, isU := cond.(*ssa.UnOp)
+			if !isU || u.Op != token.NOT {
+				break
+			}
+			cond, neg = u.X, !neg
+		}
+		if !isResult(cond) {
+			continue
+		}
+		falseSucc := b.Succs[1]
+		if neg {
+			falseSucc = b.Succs[0]
+		}
+		return !reachesLoop(falseSucc, l)
 	}
 	return false
 }
